@@ -18,8 +18,8 @@ Strings are `JStr = List Nat` (code points).  Every error of the Rust code is `n
   `ArrayType::Object` holds a `ClassName`, and `ClassName::try_from("[I")` succeeds (array class names are class names),
   so `ParsedFieldDescriptor(Type::Array(1, ArrayType::Object("[I"))).write()` panics through safe API: `printTy` returns
   `none` there (theorem `print_assert_witness` in `Thm/C18.lean`).
-* `get_arguments_size` accumulates in a `u8` (`size += 2`), the harness is built with overflow checks:
-  `ArgRes.overflow`; `ArrClassNameSlice::dimension` casts the count `as u8` and `assert_ne!(dimension, 0)`
+* `get_arguments_size` accumulates in a `u8` with `checked_add` (an error above 255 since cf30e8c; `ArgRes.overflow`, the
+  former panic of the overflow-checked build, is no longer produced); `ArrClassNameSlice::dimension` casts the count `as u8` and `assert_ne!(dimension, 0)`
   (`dimension = none`; unreachable for a valid `ArrClassName` since b182f7d, theorem `dimension_total`).
 -/
 
@@ -272,7 +272,7 @@ def skipBrackets : JStr → JStr
   | [] => []
   | c :: rest => if c = LBRACKET then skipBrackets rest else c :: rest
 
-/-- the loop of `get_arguments_size`; `size` is a `u8`, additions are overflow-checked -/
+/-- the loop of `get_arguments_size`; `size` is a `u8`, additions are `checked_add` (cf30e8c): an error above 255 -/
 def argsLoop : Nat → Nat → JStr → ArgRes
   | _, _, [] => .err
   | fuel, size, c :: rest =>
@@ -281,7 +281,7 @@ def argsLoop : Nat → Nat → JStr → ArgRes
       | 0 => .err
       | fuel + 1 =>
         if c = cD ∨ c = cJ then
-          (if size + 2 > 255 then .overflow else argsLoop fuel (size + 2) rest)
+          (if size + 2 > 255 then .err else argsLoop fuel (size + 2) rest)
         else
           match skipBrackets (c :: rest) with
           | [] => .err
@@ -289,8 +289,8 @@ def argsLoop : Nat → Nat → JStr → ArgRes
             if x = cL then
               match readName r with
               | none => .err
-              | some (_, r') => if size + 1 > 255 then .overflow else argsLoop fuel (size + 1) r'
-            else if size + 1 > 255 then .overflow else argsLoop fuel (size + 1) r
+              | some (_, r') => if size + 1 > 255 then .err else argsLoop fuel (size + 1) r'
+            else if size + 1 > 255 then .err else argsLoop fuel (size + 1) r
 
 /-- `MethodDescriptorSlice::get_arguments_size` (counts the implicit `this`; ignores the return descriptor) -/
 def argsSize (s : JStr) : ArgRes :=
